@@ -546,14 +546,17 @@ def cross_checks(pm, ctx):
                           line=guard.lineno)
     # Douglas: mask length check raises before leaf_scores_/cut points are created
     du = pm.unit("gemclus.tree.douglas")
-    f = du.func("Douglas._init_params")
+    from ..astutil import deref_self_aliases
+    f = deref_self_aliases(du.func("Douglas._init_params"))
     cfg = CFG(f)
     guard = None
     for st in cfg.nodes:
         if isinstance(st, ast.If) and st.body and isinstance(st.body[-1], ast.Raise):
-            src = norm_src(st.test)
-            if "len(self.feature_mask)" in src and "shape[1]" in src and isinstance(st.test, ast.Compare) \
-                    and isinstance(st.test.ops[0], ast.NotEq):
+            # the length test, alone or in a conjunction with `feature_mask is not None`
+            conj = st.test.values if isinstance(st.test, ast.BoolOp) and isinstance(st.test.op, ast.And) else [st.test]
+            lens = [c for c in conj if isinstance(c, ast.Compare) and isinstance(c.ops[0], ast.NotEq) and "len(self.feature_mask)" in norm_src(c) and "shape[1]" in norm_src(c)]
+            rest = [c for c in conj if c not in lens]
+            if len(lens) == 1 and all(norm_src(c) in ("self.feature_mask is not None",) for c in rest):
                 guard = st
     uses = [st for st in cfg.nodes if not isinstance(st, ast.If) and "self.feature_mask[" in norm_src(st)]
     if guard is not None and uses and all(cfg.dominates(guard, u) for u in uses):
